@@ -620,7 +620,7 @@ Section Safe.
           eapply resP_bind with (P1 := fun s1 => preM s1 /\ length (masks s1) = k).
           * unfold ask. cbn [oracle emit].
             assert (Le : LogOK (emit ECfBarrier s)) by (apply LogOK_emit; [exact I|exact Hl]).
-            destruct (oracle s) as [|r rest0]; [cbn; exact Le|]. cbn. split; [|exact Le].
+            destruct (oracle s) as [|r rest0]; [cbn; exact Le|]. destruct r; try (cbn; exact Le). cbn. split; [|exact Le].
             split; [apply (postM_preM s PS); [unfold postM; cbn; fin | exact Le] | cbn; congruence].
           * intros s1 (X & Y) _. apply (Rest s1 k Hleg X Y).
         + (* ALp *)
@@ -654,7 +654,7 @@ Section Safe.
           eapply resP_bind with (P1 := fun s1 => preM s1 /\ length (masks s1) = k).
           * unfold ask. cbn [oracle emit].
             assert (Le : LogOK (emit EColl s)) by (apply LogOK_emit; [exact I|exact Hl]).
-            destruct (oracle s) as [|r rest0]; [cbn; exact Le|]. cbn. split; [|exact Le].
+            destruct (oracle s) as [|r rest0]; [cbn; exact Le|]. destruct r; try (cbn; exact Le). cbn. split; [|exact Le].
             split; [apply (postM_preM s PS); [unfold postM; cbn; fin | exact Le] | cbn; congruence].
           * intros s1 (X & Y) _. apply (Rest s1 k Hleg X Y). }
     repeat split; assumption.
